@@ -2258,6 +2258,32 @@ evutil_inet_pton_scope(int af, const char *src, void *dst, unsigned *indexp)
 	return r;
 }
 
+/* Parse a dotted-quad IPv4 address that makes up all of 's': four decimal
+ * numbers in the range 0..255 separated by single dots, and nothing else --
+ * no signs, no blanks, no trailing characters.  (sscanf("%u") would skip
+ * leading blanks, take a sign, and wrap values above UINT_MAX.)  Leading
+ * zeros are tolerated; the numbers are always read as decimal.  Return 1 and
+ * store the four bytes in 'out' on success, 0 otherwise. */
+static int
+evutil_parse_ipv4_quad_(const char *s, ev_uint8_t *out)
+{
+	int i;
+	for (i = 0; i < 4; ++i) {
+		unsigned v = 0;
+		if (!EVUTIL_ISDIGIT_(*s))
+			return 0;
+		while (EVUTIL_ISDIGIT_(*s)) {
+			v = v * 10 + (unsigned)(*s++ - '0');
+			if (v > 255)
+				return 0;
+		}
+		out[i] = (ev_uint8_t)v;
+		if (*s++ != (i < 3 ? '.' : '\0'))
+			return 0;
+	}
+	return 1;
+}
+
 int
 evutil_inet_pton(int af, const char *src, void *dst)
 {
@@ -2265,16 +2291,12 @@ evutil_inet_pton(int af, const char *src, void *dst)
 	return inet_pton(af, src, dst);
 #else
 	if (af == AF_INET) {
-		unsigned a,b,c,d;
-		char more;
+		ev_uint8_t q[4];
 		struct in_addr *addr = dst;
-		if (sscanf(src, "%u.%u.%u.%u%c", &a,&b,&c,&d,&more) != 4)
+		if (!evutil_parse_ipv4_quad_(src, q))
 			return 0;
-		if (a > 255) return 0;
-		if (b > 255) return 0;
-		if (c > 255) return 0;
-		if (d > 255) return 0;
-		addr->s_addr = htonl((a<<24) | (b<<16) | (c<<8) | d);
+		addr->s_addr = htonl(((ev_uint32_t)q[0]<<24) | ((ev_uint32_t)q[1]<<16) |
+		    ((ev_uint32_t)q[2]<<8) | q[3]);
 		return 1;
 #ifdef AF_INET6
 	} else if (af == AF_INET6) {
@@ -2288,26 +2310,18 @@ evutil_inet_pton(int af, const char *src, void *dst)
 		else if (!dot)
 			eow = src+strlen(src);
 		else {
-			unsigned byte1,byte2,byte3,byte4;
-			char more;
+			ev_uint8_t q[4];
 			for (eow = dot-1; eow >= src && EVUTIL_ISDIGIT_(*eow); --eow)
 				;
 			++eow;
 
-			/* We use "scanf" because some platform inet_aton()s are too lax
-			 * about IPv4 addresses of the form "1.2.3" */
-			if (sscanf(eow, "%u.%u.%u.%u%c",
-					   &byte1,&byte2,&byte3,&byte4,&more) != 4)
+			/* We parse this ourselves because some platform inet_aton()s
+			 * are too lax about IPv4 addresses of the form "1.2.3" */
+			if (!evutil_parse_ipv4_quad_(eow, q))
 				return 0;
 
-			if (byte1 > 255 ||
-			    byte2 > 255 ||
-			    byte3 > 255 ||
-			    byte4 > 255)
-				return 0;
-
-			words[6] = (byte1<<8) | byte2;
-			words[7] = (byte3<<8) | byte4;
+			words[6] = (q[0]<<8) | q[1];
+			words[7] = (q[2]<<8) | q[3];
 			setWords += 2;
 		}
 
